@@ -33,6 +33,10 @@ def check(ctx):
     S.check_routing_inlined(ctx, "R-3", SFN)
     check_is_empty(ctx, "R-2")
     check_cbor_bstr(ctx, "R-2")
+    # "... the received bytes for a decoded message and otherwise the encoded map": retained bytes exist only where a header was
+    # decoded - constructions, builder setters and writers of `original_data` (the recogniser of C02 R-1 under this property's name)
+    from rules.c02 import check_constructions
+    check_constructions(ctx, "R-5")
     S.check_derived_impls(ctx, "R-3", {"core::clone::Clone"})
     # "... otherwise the encoded map": the header map that a built protected header contributes is what the header encoder
     # emits - its table is re-checked here (the recogniser of C11 R-1/R-2/R-5/R-6 under this property's name)
